@@ -98,15 +98,27 @@ func (ul *Upstreams) open(manager cert.TlsConfig) (err error) {
 	return errors.Errorf("Could not connect to any upstream endpoints!")
 }
 
-// openStream will select a specific subprotocol stream within our session
-func (ul *Upstreams) openStream(subProtocol string) (streams.ReadWriteCloserClosed, error) {
-	conn, err := ul.session.OpenStream()
+// sessionLost is returned when the shared session itself turned out to be unusable
+type sessionLost struct{ error }
+
+// openStream will select a specific subprotocol stream within the given session
+func (ul *Upstreams) openStream(session *smux.Session, subProtocol string) (streams.ReadWriteCloserClosed, error) {
+	conn, err := session.OpenStream()
 
 	if err != nil {
-		return nil, err
+		// The carrier of this session is gone (the multiplexer notices it only when it is used, or after its
+		// keep-alive has run out). Drop it, so that nobody picks it up again.
+		ul.mutex.Lock()
+		if ul.session == session {
+			streams.TryClose(session) // closes the physical connection as well
+			ul.connection = nil
+			ul.session = nil
+		}
+		ul.mutex.Unlock()
+		return nil, sessionLost{err}
 	}
 
-	stream := streams.NewNamedStream(conn, ul.session.RemoteAddr().String())
+	stream := streams.NewNamedStream(conn, session.RemoteAddr().String())
 	err = ms.SelectProtoOrFail(fmt.Sprintf("/%s", subProtocol), stream)
 	if err != nil {
 		if e := streams.LogClose(stream); e != nil {
@@ -120,17 +132,27 @@ func (ul *Upstreams) openStream(subProtocol string) (streams.ReadWriteCloserClos
 
 // Connect will return a mutex stream to the first upstream available. If an upstream connection is already opened,
 // it will be reused -- only one physical connection will be opened against the server, no matter how many logical
-// connections you start.
+// connections you start. If the session that was open has been lost, a new one is established.
 func (ul *Upstreams) Connect(config cert.ConfigGetter, subProtocol string) (streams.ReadWriteCloserClosed, error) {
+	stream, err := ul.connect(config, subProtocol)
+	if _, lost := err.(sessionLost); lost {
+		log.WithError(err).Debugf("Upstream session lost, reconnecting")
+		stream, err = ul.connect(config, subProtocol)
+	}
+	return stream, err
+}
+
+func (ul *Upstreams) connect(config cert.ConfigGetter, subProtocol string) (streams.ReadWriteCloserClosed, error) {
 	var err error
 
 	ul.mutex.Lock()
-	if ul.connection == nil || ul.connection.Closed() {
+	if ul.connection == nil || ul.connection.Closed() || ul.session == nil || ul.session.IsClosed() {
 		ul.connection = nil
 		ul.session = nil
 		verifhook.At("upstream.locked")
 		err = ul.open(config.CertManager())
 	}
+	session := ul.session
 	ul.mutex.Unlock()
 	verifhook.At("upstream.unlocked")
 
@@ -138,7 +160,7 @@ func (ul *Upstreams) Connect(config cert.ConfigGetter, subProtocol string) (stre
 		return nil, err
 	}
 
-	return ul.openStream(subProtocol)
+	return ul.openStream(session, subProtocol)
 }
 
 // Shutdown will close the connection to the connected upstream server
